@@ -518,6 +518,7 @@ class WrapperHarness(object):
             return z3.BitVecVal(0, 32)
         ex.stubs["CFI_allocate"] = cfi_allocate
         self.cfi_allocated = None
+        self.cfi_expect_alloc = False
         self.inp = {}
         argv = []
         lens = {}
@@ -579,6 +580,10 @@ class WrapperHarness(object):
                 buf = lc.sym_buffer(ex, ("buf_" + key) if role == "cfi" else "result_buf", n)
                 desc = lc.sym_buffer(ex, "cfi_" + key, ir.size_of(st), "heap")
                 alloc_result = role == "res_cfi" and self.uses_cfi_allocate()
+                if role == "res_cfi" and info.result is not None and info.result.kind() in ("string", "charp"):
+                    # a character result without +len that is not handed back through a user-named argument is a
+                    # deferred-length allocatable: the wrapper has to allocate it through the descriptor
+                    self.cfi_expect_alloc = (not info.result_attrs.get("len")) and info.cparams[k][1] == "SHcfi_SHF_rv"
                 desc.cells[ir.field_offset(st, 0)] = (8, NULL if alloc_result else Ptr(buf, 0))
                 desc.cells[ir.field_offset(st, 1)] = (8, n)
                 self.inp[("cfi", key)] = (desc, st, alloc_result)
@@ -783,6 +788,9 @@ class WrapperHarness(object):
                     out.append(("argument '%s' reaches the CFI entry point as a bare address: the Fortran caller passes an assumed-length "
                                 "character there, without a NUL and without its length" % p_.name, True))
         rcfi = self.inp.get(("cfi", "@result"))
+        if rcfi is not None and getattr(self, "cfi_expect_alloc", False) and not rcfi[2]:
+            out.append(("the declaration makes the result a deferred-length allocatable character, but the wrapper does not "
+                        "allocate it through the descriptor (the caller gets a character of the length it happened to pass)", True))
         if rcfi is not None and rcfi[2] and info.result is not None and info.result.kind() in ("charp", "string") and not rinfo.get("null"):
             d_, st_, _ = rcfi
             base = ex.load_ptr(Ptr(d_, ir.field_offset(st_, 0)))
